@@ -741,7 +741,10 @@ static void gentabs(void)
 
 	/* Begin generating yy_base */
 	sz = total_states + 1;
-	ptype = optimize_pack(sz);
+	/* The entries are offsets into yy_nxt/yy_chk, so their width follows
+	 * the size of those tables, not the number of states.
+	 */
+	ptype = optimize_pack(tblend + 1);
 	out_str ("m4_define([[M4_HOOK_BASE_TYPE]], [[%s]])", ptype->name);
 	out_dec ("m4_define([[M4_HOOK_BASE_SIZE]], [[%d]])", sz);
 	outn ("m4_define([[M4_HOOK_BASE_BODY]], [[m4_dnl");
